@@ -145,6 +145,37 @@ func init() {
 					}
 					return pfRender(file.ParseLine(line), line)
 
+				case fs[0] == "byline" && len(fs) == 2:
+					text, ok := unhex(fs[1])
+					if !ok {
+						return "bad-op"
+					}
+					out := make(chan interface{}, 8192)
+					errc := make(chan error, 1)
+					go func() { errc <- file.ParseByLine(strings.NewReader(text), out) }()
+					got := []interface{}{}
+					for v := range out {
+						got = append(got, v)
+					}
+					perr := <-errc
+					// the lines as a line reader defines them, computed independently
+					lines := strings.Split(text, "\n")
+					if len(lines) > 0 && lines[len(lines)-1] == "" {
+						lines = lines[:len(lines)-1]
+					}
+					agree := len(lines) == len(got)
+					for i := 0; agree && i < len(lines); i++ {
+						l := strings.TrimSuffix(lines[i], "\r")
+						if pfRender(got[i], l) != pfRender(file.ParseLine(l), l) {
+							agree = false
+						}
+					}
+					e := 0
+					if perr != nil {
+						e = 1
+					}
+					return fmt.Sprintf("byline n=%d agree=%s err=%d", len(got), map[bool]string{true: "t", false: "f"}[agree], e)
+
 				case fs[0] == "check":
 					var parsed []interface{}
 					var lines []string
